@@ -450,28 +450,38 @@ Definition eng_token (inp impl : node) : verdict :=
          works on the node: whether the offered bytes were canonical is a fact of the case) *)
       let canonical := match mget "canonical" facts with Bool false => false | _ => true end in
       let gate {A} (r : res A) : res A := if canonical then r else Err 20 in
-      let rd := gate (env_decode verify header_of dtok dlg_from_payload dlg_tag n) in
-      let ri := gate (env_decode verify header_of itok inv_from_payload inv_tag n) in
-      let rg := gate (generic_decode verify header_of n) in
-      let m := List [fields_res any_fields rg; fields_res dlg_fields rd; fields_res inv_fields ri; Bool enc_ok] in
-      let og := nth 0 (nlist impl) Null in
-      let od := nth 1 (nlist impl) Null in
-      let oi := nth 2 (nlist impl) Null in
-      let accepted := negb (is_err_obs og) || negb (is_err_obs od) || negb (is_err_obs oi) in
-      (* C06: nothing is accepted unless the signature verifies under the issuer's key with the announced
-         header, and what comes out is exactly the decoded content of that envelope *)
+      let rd0 := env_decode verify header_of dtok dlg_from_payload dlg_tag n in
+      let ri0 := env_decode verify header_of itok inv_from_payload inv_tag n in
+      let rg0 := generic_decode verify header_of n in
+      let rd := gate rd0 in
+      let ri := gate ri0 in
+      let rg := gate rg0 in
+      (* impl = [generic; delegation; invocation] through the sealed entry points, a flag, and (when present)
+         the same three through the plain DAG-CBOR / node-level / DAG-JSON entry points, which do not require
+         canonical bytes; each observation is the consensus of a family of equivalent entry points *)
+      let lenient := (7 <=? length (nlist impl))%nat in
+      let m := List ([fields_res any_fields rg; fields_res dlg_fields rd; fields_res inv_fields ri; Bool enc_ok] ++
+                     (if lenient then [fields_res any_fields rg0; fields_res dlg_fields rd0; fields_res inv_fields ri0] else [])) in
       let sig_ok := vfy && match hdr, inspect n with Bytes h, Ok i => str_eqb h (in_hdr i) | _, _ => false end in
-      let same_content := node_eqb og (fields_res any_fields rg) && node_eqb od (fields_res dlg_fields rd) && node_eqb oi (fields_res inv_fields ri) in
-      let c06 := negb accepted || (sig_ok && same_content) in
-      (* C10: only well-formed tokens, of the requested type *)
-      let wf1 (o : node) := is_err_obs o || fields_wf o in
-      let wfg := match og with List [Str _; f] => fields_wf f | _ => is_err_obs og end in
-      let type_ok := (is_err_obs od || match inspect n with Ok i => str_eqb (in_tag i) dlg_tag | _ => false end) &&
-                     (is_err_obs oi || match inspect n with Ok i => str_eqb (in_tag i) inv_tag | _ => false end) in
-      let shape_ok := negb accepted || is_ok (inspect n) in
-      let c10 := wfg && wf1 od && wf1 oi && type_ok && shape_ok &&
-                 (is_err_obs od || is_ok rd) && (is_err_obs oi || is_ok ri) in
-      {| model_obs := m; violated := (if c06 then [] else [lit "C06"]) ++ (if c10 then [] else [lit "C10"]) |}
+      let judge (og od oi : node) (rg : res anytok) (rd : res dtok) (ri : res itok) : bool * bool :=
+        let accepted := negb (is_err_obs og) || negb (is_err_obs od) || negb (is_err_obs oi) in
+        (* C06: nothing is accepted unless the signature verifies under the issuer's key with the announced
+           header, and what comes out is exactly the decoded content of that envelope *)
+        let same_content := node_eqb og (fields_res any_fields rg) && node_eqb od (fields_res dlg_fields rd) && node_eqb oi (fields_res inv_fields ri) in
+        let c06 := negb accepted || (sig_ok && same_content) in
+        (* C10: only well-formed tokens, of the requested type *)
+        let wf1 (o : node) := is_err_obs o || fields_wf o in
+        let wfg := match og with List [Str _; f] => fields_wf f | _ => is_err_obs og end in
+        let type_ok := (is_err_obs od || match inspect n with Ok i => str_eqb (in_tag i) dlg_tag | _ => false end) &&
+                       (is_err_obs oi || match inspect n with Ok i => str_eqb (in_tag i) inv_tag | _ => false end) in
+        let shape_ok := negb accepted || is_ok (inspect n) in
+        let c10 := wfg && wf1 od && wf1 oi && type_ok && shape_ok &&
+                   (is_err_obs od || is_ok rd) && (is_err_obs oi || is_ok ri) in
+        (c06, c10) in
+      let ob k := nth k (nlist impl) Null in
+      let '(c06a, c10a) := judge (ob 0%nat) (ob 1%nat) (ob 2%nat) rg rd ri in
+      let '(c06b, c10b) := if lenient then judge (ob 4%nat) (ob 5%nat) (ob 6%nat) rg0 rd0 ri0 else (true, true) in
+      {| model_obs := m; violated := (if c06a && c06b then [] else [lit "C06"]) ++ (if c10a && c10b then [] else [lit "C10"]) |}
   (* a Go number offered as an argument / metadata value: stored exactly or rejected *)
   | List [Str op; Int v] =>
       let m := if in53 v then List [Str (lit "ok"); Int v] else List [Str (lit "err")] in
